@@ -57,8 +57,9 @@ def one(rules, data, spec, streaming):
             r = R.DEC[rules].decode(s, asn1Spec=spec) if spec is not None else R.DEC[rules].decode(s)
             return r
     st, r = R.guarded(go, seconds=4)
-    if st == 'exc' and isinstance(r, R._Timeout):
-        # a loaded machine can stall a worker: only a repeatable timeout (with a generous limit) counts
+    if st == 'exc' and not isinstance(r, error.PyAsn1Error):
+        # a loaded machine can stall or starve a worker (time-out, MemoryError, ...): only an outcome outside the library's
+        # error hierarchy that REPEATS (with a generous limit) counts; a genuine foreign exception is deterministic
         s = Counting(bytes(data))
         st, r = R.guarded(go, seconds=40)
     if st == 'exc':
